@@ -177,7 +177,7 @@ STATS = [
 
 def run(ctx: Ctx):
   st = {}
-  for r in (r1, r2, r3, r4, r5, r6, r7, r9, r10, r12, r14):
+  for r in (r1, r2, r3, r4, r5, r6, r7, r9, r10, r12, r14, r15):
     ctx.guard(r, st)
   from mlmverif.props import c11
   from mlmverif.props._agg import model as aggmodel
@@ -254,6 +254,61 @@ def _c01_shared(sub, m):
   from mlmverif.props import c01
   sub.guard(c01.r5, m)
   sub.guard(c01.r1, m)
+
+def r15(ctx: Ctx, st):
+  rule = 'R-C07-15'
+  ctx.rule(rule, '"text-frequency ... returns the value given by its textbook definition":'
+           ' a user pattern is a LITERAL string — every `re.<fn>(pattern, ...)` in the'
+           ' text aggregates and text signals gets either a constant pattern or an'
+           ' expression in which every non-constant part is wrapped in re.escape(...)'
+           ' (also through str.format / f-strings / `+`). An unescaped user pattern is'
+           ' interpreted as a regular expression: \'a.c\' also counts \'abc\', \'1+1\''
+           ' counts \'11\' but not itself — and the duplicate-counting mode disagrees'
+           ' with the plain find() mode')
+  repo = ctx.repo
+  n = 0
+
+  def safe(e) -> bool:
+    if isinstance(e, ast.Constant):
+      return True
+    if isinstance(e, ast.Call) and unparse(e.func) == 're.escape':
+      return True
+    if isinstance(e, ast.Call) and isinstance(e.func, ast.Attribute) and e.func.attr == 'format':
+      return safe(e.func.value) and all(safe(a) for a in e.args) and all(safe(k.value) for k in e.keywords)
+    if isinstance(e, ast.JoinedStr):
+      return all(safe(v.value) if isinstance(v, ast.FormattedValue) else True for v in e.values)
+    if isinstance(e, ast.BinOp) and isinstance(e.op, (ast.Add, ast.Mod)):
+      return safe(e.left) and safe(e.right)
+    if isinstance(e, ast.Tuple):
+      return all(safe(x) for x in e.elts)
+    return False
+
+  for mod in ('aggregates.text', 'signals.text'):
+    mi = repo.module(mod)
+    fns = list(mi.functions.values()) + [m_ for c in mi.classes.values() for m_ in c.methods.values()]
+    for fi in fns:
+      for c in ast.walk(fi.node):
+        if isinstance(c, ast.Call) and isinstance(c.func, ast.Attribute) and isinstance(c.func.value, ast.Name) and (
+            c.func.value.id == 're') and c.func.attr in ('compile', 'search', 'match', 'fullmatch', 'findall',
+                                                           'finditer', 'sub', 'subn', 'split') and c.args:
+          n += 1
+          pat = c.args[0]
+          # follow one local definition
+          if isinstance(pat, ast.Name):
+            defs = [x.value for x in ast.walk(fi.node) if isinstance(x, ast.Assign) and any(
+                isinstance(t, ast.Name) and t.id == pat.id for t in x.targets)]
+            ok = bool(defs) and all(safe(d) for d in defs)
+          else:
+            ok = safe(pat)
+          if ok:
+            ctx.ok(rule, fi, f're.{c.func.attr}: pattern is constant or escaped', c)
+          else:
+            ctx.fail(rule, fi, f'{fi.qualname}: re.{c.func.attr} pattern is a constant or re.escape()d',
+                     f'`{unparse(c)[:70]}` builds its regular expression from `{unparse(pat)[:40]}` without'
+                     ' re.escape: a user pattern with metacharacters (. + | $ ...) is matched as a regex,'
+                     ' not counted as the literal string the metric is defined over', node=c)
+  ctx.floor(rule, 5, n)
+
 
 
 def _c11_shared(sub, m):
@@ -1047,6 +1102,10 @@ _C = 'aggregates/classification.py'
 _T = 'aggregates/retrieval.py'
 _MC = 'metrics/classification.py'
 VARIANTS = [
+    B('pattern-frequency-unescaped', 'aggregates/text.py',
+      "re.finditer(r'(?=({}))'.format(re.escape(pattern)), text)", "re.finditer(r'(?=({}))'.format(pattern), text)", 'R-C07-15'),
+    OK('pattern-frequency-escaped-via-local', 'aggregates/text.py',
+       "re.finditer(r'(?=({}))'.format(re.escape(pattern)), text)", "re.finditer('(?=(' + re.escape(pattern) + '))', text)"),
     B('flip-mask-boundary-strict', 'signals/flip_masks.py',
       '  model_under_threshold = model_prediction <= threshold', '  model_under_threshold = model_prediction < threshold', 'R-C07-14'),
     OK('flip-mask-comparison-mirrored', 'signals/flip_masks.py',
